@@ -92,19 +92,11 @@ def match_posix_form_rejected(form):
     return m
 
 
-def match_deprecated_typeerror(payload):
-    """deprecated comma format (8 or 9 commas) WITHOUT a standard offset: `None + int` in _tzparser.parse"""
-    inp = payload.get("input") or {}
-    return (payload.get("kind", "") == "TypeError instead of a zone or ValueError"
-            and inp.get("commas") in (8, 9) and inp.get("parsed_stdoffset") is None
-            and payload.get("impl") == [2] and payload.get("model") == [2])
-
-
 MATCHERS = {"c08_negative_dst_saving": match_negative_dst,
             "c08_quoted_names_rejected": match_posix_form_rejected("quoted_name"),
             "c08_offset_seconds_rejected": match_posix_form_rejected("offset_seconds"),
             "c08_signed_rule_time_rejected": match_posix_form_rejected("signed_rule_time"),
-            "c08_deprecated_format_typeerror": match_deprecated_typeerror,
+
             "c08_tzlocal_negative_dst_saving": match_tzlocal_negative_dst,
             "c08_tzlocal_unsampled_daylight_window": match_tzlocal_unsampled,
             "c08_d8_rule_time_outside_standard_day": match_d8}
